@@ -109,6 +109,14 @@ pub fn measure<T>(f: impl FnOnce() -> T) -> (T, AllocStats) {
 	(r, st)
 }
 
+/// Run `f` (harness bookkeeping) with accounting suspended on this thread, inside a measured section
+pub fn unmeasured<T>(f: impl FnOnce() -> T) -> T {
+	let was = ACTIVE.with(|a| a.replace(false));
+	let r = f();
+	ACTIVE.with(|a| a.set(was));
+	r
+}
+
 /// Guard variant that stops accounting even on unwind
 pub struct MeasureGuard;
 impl MeasureGuard {
